@@ -31,6 +31,20 @@ pub broadcast axiom fn ax_ndigits(b: int, v: int)
     ensures v == 0 ==> #[trigger] ndigits(b, v) == 0,
         v != 0 ==> ndigits(b, v) >= 1 && ipow(b, (ndigits(b, v) - 1) as nat) <= iabs(v) && iabs(v) < ipow(b, ndigits(b, v));
 
+// ---- RESOURCE LIMITS of the helpers below.  C16 lists "exponent overflow" as a documented panic: where the real code
+// would overflow `isize` / `usize` arithmetic (debug build: panic; release build: a wrapped, WRONG value) the stubs
+// claim nothing.  Every function under contract that reaches one of these helpers carries the corresponding
+// precondition, marked "resource limit: exponent overflow is a documented panic (C16), not modelled".
+/// room for the exponent of `significand * B^e` with a `d`-digit significand: the exponent of the LEADING digit,
+/// e + d - 1, fits `isize`.  `Repr::normalize` strips the trailing zero digits of the significand (at most d - 1 of
+/// them when it is not zero; none when it is zero, d == 0) and ADDS their count to the exponent
+/// (repr.rs `exponent += shift as isize`): the sum is at most e + d - 1.
+pub open spec fn exp_room(e: int, d: int) -> bool { e + d - 1 <= isize::MAX }
+/// a digit position / digit shift `pos` whose BIT position fits `usize` in every power-of-two base: utils.rs computes
+/// `pos * B.trailing_zeros() as usize` (factor <= 63) in `split_digits(_ref)`, `shr_digits`, `shl_digits(_in_place)`;
+/// the arms for base 2, base 10 and the other bases use `pos` itself (shift amount or exponent of `pow`).
+pub open spec fn pos_room(pos: int) -> bool { pos * 64 <= usize::MAX }
+
 // ---- TRUSTED stubs (float/src/utils.rs, float/src/repr.rs); each contract was read off the real function
 /// utils::digit_len: "Returns the integer k such that B^(k-1) <= value < B^k. If value is 0, then k = 0"
 #[verifier::external_body]
@@ -52,21 +66,31 @@ impl<const BASE: Word> Repr<BASE> {
     { unimplemented!() }
 }
 
-/// utils::split_digits: v == hi*B^pos + lo, |lo| < B^pos, "the sign is applied to both parts"
+/// utils::split_digits: v == hi*B^pos + lo, |lo| < B^pos, "the sign is applied to both parts".
+/// `pos_room(pos)`: for a power-of-two base other than 2 the bit position `pos * log2(B)` is computed in usize
+/// (utils.rs:141 / :117): with it overflowing, `split_digits::<16>(0x123, 1 << 62)` panics (debug) or returns
+/// (0x123, 0) instead of (0, 0x123) (release).
 #[verifier::external_body]
 pub fn split_digits<const B: Word>(value: IBig, pos: usize) -> (r: (IBig, IBig))
-    requires B >= 2
+    requires B >= 2,
+        pos_room(pos as int),        // resource limit: exponent overflow is a documented panic (C16), not modelled
     ensures is_trunc_divrem(value.v(), ipow(B as int, pos as nat), r.0.v(), r.1.v())
 { unimplemented!() }
 #[verifier::external_body]
 pub fn split_digits_ref<const B: Word>(value: &IBig, pos: usize) -> (r: (IBig, IBig))
-    requires B >= 2
+    requires B >= 2,
+        pos_room(pos as int),        // resource limit: exponent overflow is a documented panic (C16), not modelled
     ensures is_trunc_divrem(value.v(), ipow(B as int, pos as nat), r.0.v(), r.1.v())
 { unimplemented!() }
 impl<const B: Word> Repr<B> {
-    /// Repr::new = struct literal + normalize(): same value, zero becomes (0, 0), result normalized; exponent overflow not modelled
+    /// Repr::new = struct literal + normalize(): same value, zero becomes (0, 0), result normalized.
+    /// `exp_room`: normalize() adds the number of stripped trailing zero digits to the exponent in isize
+    /// (repr.rs:242/:247/:251); `Repr::<2>::new(2.into(), isize::MAX)` panics (debug) or returns (1, isize::MIN) (release).
     #[verifier::external_body]
     pub fn new(significand: IBig, exponent: isize) -> (r: Self)
+        requires
+            // resource limit: exponent overflow is a documented panic (C16), not modelled
+            exp_room(exponent as int, ndigits(B as int, significand.v()) as int),
         ensures same_value(B as int, r.significand.v(), r.exponent as int, significand.v(), exponent as int),
             significand.v() == 0 ==> r.significand.v() == 0 && r.exponent == 0,
             // normalize(): "so that the significand is not divisible by the base" (all three branches: B == 2,
@@ -92,6 +116,128 @@ impl AddSpecImpl<Rounding> for IBig {
     open spec fn add_spec(self, rhs: Rounding) -> IBig { ibig_of(self.v() + adj_int(rhs)) }
 }
 
+/// b^x <= b^y for x <= y (local copy: farith_lemmas.rs, which has the general digit lemmas, is not included by every unit)
+pub proof fn lemma_ipow_le(b: int, x: nat, y: nat)
+    requires b >= 1, x <= y
+    ensures ipow(b, x) <= ipow(b, y)
+    decreases y
+{
+    if x < y {
+        lemma_ipow_le(b, x, (y - 1) as nat);
+        lemma_ipow_pos(b, (y - 1) as nat);
+        let t = ipow(b, (y - 1) as nat);
+        assert(b * t >= t) by (nonlinear_arith) requires b >= 1, t >= 1;
+    }
+}
+/// |v| <= b^p  ==>  v has at most p + 1 digits (a rounded significand: at most p digits, or exactly +-b^p)
+pub proof fn lemma_ndigits_le_pow(b: int, v: int, p: nat)
+    requires b >= 2, iabs(v) <= ipow(b, p)
+    ensures ndigits(b, v) <= p + 1
+{
+    broadcast use ax_ndigits;
+    let n = ndigits(b, v);
+    if n > p + 1 {
+        // b^(p+1) <= b^(n-1) <= |v| <= b^p < b^(p+1)
+        lemma_ipow_le(b, (p + 1) as nat, (n - 1) as nat);
+        lemma_ipow_pos(b, p);
+        let t = ipow(b, p);
+        assert(ipow(b, (p + 1) as nat) == b * t);
+        assert(b * t > t) by (nonlinear_arith) requires b >= 2, t >= 1;
+    }
+}
+/// the `Repr::new` of `Context::repr_round(_ref)`: the rounded significand mm (|mm| <= b^p) at exponent e + (nd - p) has
+/// room whenever the operand had room for one more digit (the carry case mm == b^p normalizes to 1 * b^(e + nd))
+pub proof fn lemma_round_exp_room(b: int, mm: int, p: nat, e: int, nd: nat)
+    requires b >= 2, iabs(mm) <= ipow(b, p), nd >= p, e + nd <= isize::MAX
+    ensures exp_room(e + (nd - p), ndigits(b, mm) as int)
+{
+    lemma_ndigits_le_pow(b, mm, p);
+}
+/// ndigits is determined by its defining enclosure (local copy of farith_lemmas.rs lemma_ndigits_unique)
+pub proof fn lemma_nd_unique(b: int, v: int, k: nat)
+    requires b >= 2, k >= 1, ipow(b, (k - 1) as nat) <= iabs(v), iabs(v) < ipow(b, k)
+    ensures ndigits(b, v) == k
+{
+    broadcast use ax_ndigits;
+    lemma_ipow_pos(b, (k - 1) as nat);
+    let n = ndigits(b, v);
+    assert(v != 0);
+    if n < k {
+        lemma_ipow_le(b, n, (k - 1) as nat);
+    } else if n > k {
+        lemma_ipow_le(b, k, (n - 1) as nat);
+    }
+}
+/// appending k zero digits (local copy of farith_lemmas.rs lemma_ndigits_shift)
+pub proof fn lemma_nd_shift(b: int, s: int, k: nat)
+    requires b >= 2, s != 0
+    ensures ndigits(b, s * ipow(b, k)) == ndigits(b, s) + k
+{
+    broadcast use ax_ndigits;
+    let n = ndigits(b, s);
+    let u = ipow(b, k);
+    lemma_ipow_pos(b, k);
+    let lo = ipow(b, (n - 1) as nat);
+    let hi = ipow(b, n);
+    let a = iabs(s);
+    let v = s * u;
+    assert(iabs(v) == a * u) by (nonlinear_arith) requires v == s * u, a == (if s < 0 { -s } else { s }), u >= 1;
+    let au = a * u;
+    assert(lo * u <= au) by (nonlinear_arith) requires lo <= a, u >= 1, au == a * u;
+    assert(au < hi * u) by (nonlinear_arith) requires a < hi, u >= 1, au == a * u;
+    lemma_ipow_add(b, (n - 1) as nat, k);
+    lemma_ipow_add(b, n, k);
+    assert(((n - 1) as nat + k) as nat == ((n + k) - 1) as nat);
+    lemma_nd_unique(b, v, n + k);
+}
+/// `exp_room` is a property of the VALUE: every representation s * b^e of the same non-zero number has the same
+/// leading-digit exponent e + ndigits(s) - 1 (for zero, any isize exponent has room)
+pub proof fn lemma_exp_room_value(b: int, s1: int, e1: int, s2: int, e2: int)
+    requires b >= 2, same_value(b, s1, e1, s2, e2), exp_room(e2, ndigits(b, s2) as int), e1 <= isize::MAX
+    ensures exp_room(e1, ndigits(b, s1) as int)
+{
+    broadcast use ax_ndigits;
+    if e1 <= e2 {
+        let k = (e2 - e1) as nat;
+        if s2 != 0 { lemma_nd_shift(b, s2, k); } else { assert(0 * ipow(b, k) == 0); }
+    } else {
+        let k = (e1 - e2) as nat;
+        if s1 != 0 { lemma_nd_shift(b, s1, k); }
+    }
+}
+/// the two halves of a significand split k digits from the right (`split_digits`, `shr_digits`) handed to `Repr::new`:
+/// the high part (adjusted by -1/0/+1 for a rounding) at exponent 0 and the low part at exponent -k both have room
+pub proof fn lemma_split_exp_room(b: int, s: int, k: nat, hi: int, lo: int, a: int)
+    requires b >= 2, is_trunc_divrem(s, ipow(b, k), hi, lo), -1 <= a <= 1, ndigits(b, s) < isize::MAX
+    ensures exp_room(0, ndigits(b, hi + a) as int), exp_room(-(k as int), ndigits(b, lo) as int)
+{
+    broadcast use ax_ndigits;
+    let u = ipow(b, k);
+    lemma_ipow_pos(b, k);
+    let n = ndigits(b, s);
+    lemma_ipow_pos(b, n);
+    // |hi| <= |hi| * u <= |s| < b^n
+    lemma_divrem_facts(s, u, hi, lo);
+    let hu = hi * u;
+    let ah = iabs(hi);
+    let ahu = ah * u;
+    assert(ahu == iabs(hu)) by (nonlinear_arith) requires ahu == ah * u, hu == hi * u, ah == (if hi < 0 { -hi } else { hi }), u > 0;
+    assert(ah <= ahu) by (nonlinear_arith) requires ahu == ah * u, u >= 1, ah >= 0;
+    assert(iabs(hu) <= iabs(s));
+    lemma_ndigits_le_pow(b, hi + a, n);
+    lemma_ndigits_le_pow(b, lo, k);
+}
+/// `Repr::<2>::new` on a machine mantissa (|m| <= 2^64) and an i16 exponent (conversions from f32 / f64) always has
+/// room for the exponent: at most 65 binary digits above an exponent <= 32767.  Stated as a `forall` because the call sits
+/// in a match arm (`Ok((man, exp)) => Ok(Repr::new(man.into(), exp as _))`) where no proof step can be placed.
+pub proof fn lemma_exp_room_prim()
+    ensures forall|m: int, e: int| iabs(m) <= 0x1_0000_0000_0000_0000 && e <= i16::MAX ==> #[trigger] exp_room(e, ndigits(2, m) as int)
+{
+    assert(ipow(2, 64) == 0x1_0000_0000_0000_0000) by (compute);
+    assert forall|m: int, e: int| iabs(m) <= 0x1_0000_0000_0000_0000 && e <= i16::MAX implies #[trigger] exp_room(e, ndigits(2, m) as int) by {
+        lemma_ndigits_le_pow(2, m, 64);
+    }
+}
 /// the result of a rounding differs from the exact value when the dropped digits are not all zero
 pub proof fn lemma_inexact(sig: int, u: int, hi: int, lo: int, adj: Rounding)
     requires u > 0, is_trunc_divrem(sig, u, hi, lo), lo != 0
